@@ -5,6 +5,10 @@
  *   rt <secs> <fmt> <full|short> <parse fmt>
  *   acc <secs> <ms>        aws_date_time_init_epoch_secs(secs + ms/1000.0)
  *   millis <u64>           aws_date_time_init_epoch_millis
+ *   fmtb <cap> <prefix hex> (<secs> <fmt> <full|short>)+
+ *                          the timestamps are formatted one after the other into ONE aws_byte_buf of capacity cap
+ *                          that already holds the prefix (a '/' is pushed between them when there is room); after
+ *                          each call: rc, len and the bytes [0,len); then every appended range is parsed back (auto)
  */
 #include "h_common.h"
 #include <aws/common/byte_buf.h>
@@ -101,6 +105,52 @@ static void s_do_parse(const uint8_t *text, size_t len, int fmt) {
     free(copy);
 }
 
+#define FMTB_MAX 16
+
+static void s_do_fmtb(size_t cap, const uint8_t *pre, size_t pre_len, int nsteps, char **st) {
+    /* exact-size block: a write past the capacity is an ASan report */
+    uint8_t *mem = malloc(cap ? cap : 1);
+    HC_CHECK(mem != NULL);
+    memset(mem, 0xA5, cap ? cap : 1);
+    memcpy(mem, pre, pre_len);
+    struct aws_byte_buf buf = aws_byte_buf_from_empty_array(mem, cap);
+    buf.len = pre_len;
+    size_t starts[FMTB_MAX], ends[FMTB_MAX];
+    int nok = 0;
+    for (int i = 0; i < nsteps; ++i) {
+        int f = s_fmt(st[3 * i + 1]), sh = s_short(st[3 * i + 2]);
+        if (i > 0 && buf.len < buf.capacity) {
+            buf.buffer[buf.len++] = '/';
+        }
+        struct aws_date_time dt;
+        aws_date_time_init_epoch_secs(&dt, (double)hc_parse_i64(st[3 * i]));
+        size_t before = buf.len;
+        int rc = sh ? aws_date_time_to_utc_time_short_str(&dt, (enum aws_date_format)f, &buf)
+                    : aws_date_time_to_utc_time_str(&dt, (enum aws_date_format)f, &buf);
+        HC_CHECK(buf.capacity == cap && (cap == 0 || buf.buffer == mem)); /* a zero-capacity aws_byte_buf has a NULL buffer */
+        size_t shown = buf.len <= cap ? buf.len : cap;
+        printf("%c fmtb %s len=%zu data=", s_cls, rc == AWS_OP_SUCCESS ? "OK" : hc_last_error_name(), buf.len);
+        hc_put_hex(buf.buffer, shown);
+        printf("\n");
+        if (rc == AWS_OP_SUCCESS) {
+            starts[nok] = before;
+            ends[nok] = buf.len;
+            ++nok;
+        }
+        if (buf.len > cap) {
+            buf.len = cap; /* keep going without leaving the block */
+        }
+    }
+    for (int k = 0; k < nok; ++k) {
+        if (starts[k] > ends[k] || ends[k] > cap) {
+            printf("%c fmtb bad-range start=%zu end=%zu\n", s_cls, starts[k], ends[k]);
+        } else {
+            s_do_parse(mem + starts[k], ends[k] - starts[k], AWS_DATE_FORMAT_AUTO_DETECT);
+        }
+    }
+    free(mem);
+}
+
 int main(void) {
     char *tt[HC_MAX_TOKS];
     int n;
@@ -149,6 +199,19 @@ int main(void) {
                 s_do_parse(m, len, pf);
                 free(m);
             }
+        } else if (!strcmp(t[0], "fmtb") && n >= 6 && (n - 3) % 3 == 0 && (n - 3) / 3 <= FMTB_MAX) {
+            size_t cap = hc_parse_size(t[1]), pl = 0;
+            uint8_t *pre = hc_hex_decode(t[2], &pl);
+            int ns = (n - 3) / 3, bad = pre == NULL || pl > cap;
+            for (int i = 0; i < ns && !bad; ++i) {
+                bad = s_fmt(t[3 + 3 * i + 1]) < 0 || s_short(t[3 + 3 * i + 2]) < 0;
+            }
+            if (bad) {
+                printf("bad-op\n");
+            } else {
+                s_do_fmtb(cap, pre, pl, ns, t + 3);
+            }
+            free(pre);
         } else if (!strcmp(t[0], "acc") && n == 3) {
             long long secs = hc_parse_i64(t[1]);
             unsigned long ms = strtoul(t[2], NULL, 10);
